@@ -25,8 +25,8 @@ PLAN = {
                 thorough=[("rt", "release", 1500000)],
                 assumptions=["frame boundaries come from refflac"]),
     "C17": dict(level="exploration", rule=RT_RULE,
-                quick=[("rt", "release", 30000)],
-                thorough=[("rt", "release", 1000000)],
+                quick=[("rt", "release", 30000), ("dmg", "release", 150), ("dmgcat", "release", 150)],
+                thorough=[("rt", "release", 1000000), ("dmg", "release", 4000), ("dmgcat", "release", 4000)],
                 assumptions=[]),
     "C13": dict(level="fault_enumeration",
                 rule=("each run draws one transaction (encode+finalize through a writer front-end on a raw / caller-buffered / "
@@ -101,4 +101,25 @@ PLAN = {
                 quick=[("c16", "release", 20000), ("c16sweep", "release", 300)],
                 thorough=[("c16", "release", 1000000), ("c16", "checked", 100000), ("c16sweep", "release", 20000)],
                 assumptions=["a returned frame that refflac finds checksum-valid somewhere on the wire is not counted as fabricated"]),
+    "C04": dict(level="fault_enumeration",
+                rule=("corpus file = small encoder output (1-4 frames, blocks 16-64, drawn signal/option family) or a libFLAC-made "
+                      "fixture; fault coordinates per file: every single-bit flip (metadata included), every truncation length, every "
+                      "16-byte zeroed sector, sampled double flips, sampled flips with CRC-8/CRC-16 repaired, plus (dmgcat) the "
+                      "must-reject catalogue; each damaged file is fed to 6 (quick) / all 18 (thorough) of the decoding and parsing "
+                      "entry points in rotation; one (damaged file, entry point) = one evaluation; monitors: panic/abort, hang "
+                      "(EOF-poll and event budgets), peak allocation <= 64 MiB + 16 x input; both profiles"),
+                exhaustive_subspaces=["per corpus file <= 700 bytes: all single-bit flips, all truncation lengths, all 16-byte sectors"],
+                quick=[("dmg", "release", 130), ("dmg", "checked", 130), ("dmgcat", "release", 40), ("dmgcat", "checked", 40)],
+                thorough=[("dmg", "release", 2500), ("dmg", "checked", 2500), ("dmgcat", "release", 2000), ("dmgcat", "checked", 2000)],
+                assumptions=["restricted claim: only byte strings that storage/transport faults derive from valid files, not all byte strings"]),
+    "C05": dict(level="fault_enumeration",
+                rule=("same corpus; coordinates: every single-bit flip inside the audio frames and the stored MD5, every truncation "
+                      "length, (thorough) zeroed sectors, repaired flips, double flips; each damaged file is fully decoded through 2-3 "
+                      "reader front-ends in rotation and through verify_reader; refflac judges the altered bytes; dmgcat = must-reject "
+                      "catalogue through all 10 readers and verify_reader; one (damaged file, reader) = one evaluation"),
+                exhaustive_subspaces=["per corpus file <= 700 bytes: all single-bit flips in the frame region and the digest, all truncation lengths"],
+                quick=[("dmg", "release", 220), ("dmgcat", "release", 150)],
+                thorough=[("dmg", "release", 6000), ("dmg", "checked", 1000), ("dmgcat", "release", 5000)],
+                assumptions=["refflac decides whether altered bytes happen to be another valid stream",
+                             "checksum-consistent random edits are not judged for silent acceptance (C03's question)"]),
 }
